@@ -23,6 +23,13 @@ def run(ctx):
         # as complete as a requested one
         t = system.record(ctx, "accept-fatal", test="TestVerifFaults", env={"VERIF_FAULT_SET": "fatal"})
         system.validate(ctx, t, ["TrLife", "TrFd"], "engine ended by a fatal accept error")
+    # a connection arriving while the engine is stopping and the listener's loop is inside a callback
+    t = system.record(ctx, "lateaccept", test="TestVerifLateAccept")
+    system.validate(ctx, t, ["TrLife"], "late connection during shutdown")
+    # the poller's side of a Shutdown answer: a (low-priority) task that returns ErrEngineShutdown ends Polling whatever is
+    # queued behind it -- every schedule of Poller.tla's graph for such a script on the real poller
+    from checks import c03
+    c03.replay(ctx, "Poller_replayS.cfg", 0)
     t = system.record(ctx, "client", test="TestVerifClient")
     system.validate(ctx, t, ["TrLife"], "client engines ended by Client.Stop")
     system.engine_traces(ctx, t, "client engines")
